@@ -37,7 +37,9 @@ def run(tier, seed, replay=None):
         nexp = len(cases)
         ck.extra["tlc_exported_lps"] = nexp
         cases += [drv.gen(rng, big=(i % 3 == 0)) for i in range(600 if tier == "quick" else 8000)]
-    res = run_tasks("lp", "run_lp", cases, timeout=20)
+        # no variables: every row reads 0 <= b_i
+        cases += [{"A": [[] for _ in b], "b": b, "c": []} for b in ([-1], [1], [0, 2], [1, -1], [0])]
+    res = run_tasks("lp", "run_lp", cases, timeout=120)
     trs = []
     for r, c in zip(res, cases):
         if not isinstance(r, dict) or "events" not in r:
@@ -61,7 +63,7 @@ def run(tier, seed, replay=None):
     # ---- step level: phase-2 pivot sequences (wrapped module functions) replayed as Simplex!Pivot actions on the exact data
     plain = [c for c in cases[nexp:] if not c.get("rowden") and c.get("cden", 1) == 1]
     sc = cases[:nexp][: 150 if tier == "quick" else 1500] + plain[: 400 if tier == "quick" else 5000]
-    st = [x for r in run_tasks("lp", "run_lp_steps", sc, timeout=20) if isinstance(r, dict) for x in r.get("steps", [])]
+    st = [x for r in run_tasks("lp", "run_lp_steps", sc, timeout=120) if isinstance(r, dict) for x in r.get("steps", [])]
     if len(st) < len(sc) // 2:
         raise tlc.MachineryError("simplex step traces could not be recorded (%d from %d LPs)" % (len(st), len(sc)))
     sv = ck.validate(DIR, "SimplexSteps", st, "phase-2 pivot sequences of solve_lp", timeout=14400)
